@@ -5,6 +5,7 @@ import (
 	"encoding/json"
 	"fmt"
 	"math/rand/v2"
+	"net/url"
 	"os"
 	"path"
 	"path/filepath"
@@ -39,7 +40,38 @@ func (c16) Components() map[string]string {
 	}
 }
 
-var c16Plain = []string{"foo", "bar-1", "a.b", "x_y", "...", "..foo", "foo..", "with space", "back\\slash", "..\\up", "notation-foo", "üñí", "-dash", "~tilde", "foo:bar", "%2e%2e"}
+var c16Plain = []string{"foo", "bar-1", "a.b", "x_y", "...", "..foo", "foo..", "with space", "back\\slash", "..\\up", "notation-foo", "üñí", "-dash", "~tilde", "foo:bar", "%2e%2e",
+	// one path component as given, something else after the clean-ups a lookup might apply (trimming, case folding,
+	// unescaping, separator translation): the name as given is the plugin's name
+	" ..", ".. ", "\t..\n", " .", ".\n", " . ", "foo ", " foo", "foo\n", "FOO", "Foo", "bar-1 ", "..%2f", "%2e", "..\\..", "foo\r", "\u00a0..", "..\u3000"}
+
+// c16Aliases returns other spellings a careless lookup could turn the name into.
+func c16Aliases(name string) []string {
+	var out []string
+	add := func(a string) {
+		if a == name || a == "" {
+			return
+		}
+		for _, o := range out {
+			if o == a {
+				return
+			}
+		}
+		out = append(out, a)
+	}
+	add(strings.TrimSpace(name))
+	add(strings.Trim(name, " \t\r\n"))
+	add(strings.ToLower(name))
+	if u, err := url.PathUnescape(name); err == nil {
+		add(u)
+	}
+	add(strings.ReplaceAll(name, "\\", "/"))
+	if !strings.Contains(name, "\x00") {
+		add(filepath.Clean(name))
+	}
+	return out
+}
+
 var c16Bad = []string{"..", ".", "", "../x", "../../x", "../../../x", "../../../../x", "../../../../../x", "a/../b", "a/b", "/abs", "x/..", "./foo", "foo/", "foo/../../x", "../foo", "..//x", "foo\x00bar", "\x00", strings.Repeat("a", 5000), strings.Repeat("../", 3) + "etc", "../" + strings.Repeat("b", 300), "foo/.", "./.", "../.", "..\x00", "foo/\x00", "//", "/", "../../../../../../../../tmp/x", "foo//bar", ".//..", "a/./b", "\t/.."}
 
 func onePathComponent(name string) bool {
@@ -140,7 +172,11 @@ func (l c16) Exec(env *core.Env) *core.Result {
 	nMark := 0
 	for i, op := range p.Ops {
 		name := op.Str(0)
+		spellings := c16Aliases(name)
 		if !onePathComponent(name) {
+			spellings = append([]string{name}, spellings...)
+		}
+		for _, name := range spellings {
 			for _, target := range []string{
 				filepath.Join(root, path.Join(name, "notation-"+name)),
 				filepath.Join(root, name, "notation-"+filepath.Base(name)),
